@@ -110,7 +110,7 @@ func (u *memoryManagementUnit) getFromMemory(addrs []int32) []int8 {
 func (u *memoryManagementUnit) fetchCacheLine(addr int32) []int8 {
 	memory := make([]int8, 0, l3CacheLineSize)
 	for i := 0; i < l3CacheLineSize; i++ {
-		if int(addr)+i >= len(u.ctx.Memory) {
+		if int(addr)+i < 0 || int(addr)+i >= len(u.ctx.Memory) {
 			memory = append(memory, 0)
 		} else {
 			memory = append(memory, u.ctx.Memory[int(addr)+i])
@@ -149,6 +149,9 @@ func (u *memoryManagementUnit) writeToL3(addr int32, data []int8) {
 
 func (u *memoryManagementUnit) writeToMemory(addr comp.AlignedAddress, data []int8) {
 	for i, v := range data {
+		if int(addr)+i < 0 {
+			continue
+		}
 		if int(addr)+i >= len(u.ctx.Memory) {
 			return
 		}
